@@ -380,13 +380,13 @@ package priority
 //@ func prepare
 //@   requires [*] opts.Divider != nil && opts.HandlersQuantity >= 1
 //@   requires [*] gPset == domset(opts.Inputs) && gH == opts.HandlersQuantity && !gDivErr
-//@   modifies gDivErr
+//@   modifies gDivErr, gPerm, gInv
 //@   ensures [*] result3 == nil ==> (result0 != nil && result2 != nil && result0 != result2 && fresh(result0) && fresh(result2) && result1.arr != 0 && fresh(result1.arr))
 //@   ensures [*] result3 == nil ==> (strictlyDesc(result1) && allIn(result1, gPset))
 //@   ensures [*] result3 == nil ==> (forall k :: in(gPset, k) ==> dom(result0, k))
 //@   ensures [* C07] result3 == nil ==> (forall k :: dom(result0, k) ==> !result0[k].Drained)
 //@   ensures [C15] creation-fault-is-reported: gDivErr ==> result3 == ErrDividerBad
-//@   ensures [C15] every-configured-priority-has-a-share: result3 == nil ==> (forall k :: in(gPset, k) ==> result2[k] >= 1)
+//@   ensures [C15] every-configured-priority-has-a-share: result3 == nil ==> (forall a :: 0 <= a && a < len(result1) ==> result2[result1[a]] >= 1)
 //@   ensures [C07 C15] result3 == nil ==> !gDivErr
 //@   assume-arith append-len[3]
 //@   loop 0
@@ -401,6 +401,6 @@ package priority
 // configuration. The feedback/output capacities are sizes the runtime can allocate.
 //@ func New
 //@   requires [*] ghost-initial-state: gInfl == 0 && (forall k :: gInflP[k] == 0) && !gDivErr && !gOutClosed && (forall k :: !in(gClosedIn, k)) && gPset == domset(opts.Inputs) && gH == opts.HandlersQuantity
-//@   modifies gDivErr
+//@   modifies gDivErr, gPerm, gInv
 //@   ensures [*] result1 == nil ==> result0 != nil
 //@   ensures [C15] creation-fault-is-reported: gDivErr ==> result1 == ErrDividerBad
